@@ -18,9 +18,11 @@ for m in sorted(glob.glob('/verif/seeded/*/meta.json')):
             how = 'correspondence / proof obligation broke (no-failing-input-found)'
         elif vio: how = 'violation reported'
     name = os.path.basename(os.path.dirname(m))
-    rows.append((d.get('property', name[:3]), name, (d.get('what_it_breaks') or '')[:150].replace('|', '/').replace('\n', ' '),
+    hist = d.get('history', [])
+    missed_before = any(h.get('detected') is False for h in hist)
+    rows.append((name[:3], name, (d.get('what_it_breaks') or '')[:150].replace('|', '/').replace('\n', ' '),
                  (d.get('needs_to_manifest') or '')[:150].replace('|', '/').replace('\n', ' '),
-                 'caught: ' + how if v.get('detected') else '**MISSED**'))
+                 ('caught: ' + how + (' — MISSED by the first version of the check, caught after the check was strengthened (see §9 notes)' if missed_before else '')) if v.get('detected') else '**MISSED**'))
 out = ["## 9. Seeded changes: which checks catch which changes", "",
        "Changes were written by fresh sub-agents that saw only the property text and a scratch worktree (nothing from",
        "`/verif`). Each was confirmed here (`bin/seedtest.py`: compiles, the existing tests of the touched packages pass, the",
@@ -30,7 +32,14 @@ out = ["## 9. Seeded changes: which checks catch which changes", "",
        "| prop | change | what it breaks | needs to manifest | quick check |", "|---|---|---|---|---|"]
 for r in rows:
     out.append("| %s | `%s` | %s | %s | %s |" % r)
-out += ["", "%d seeded changes, %d caught by the quick tier." % (len(rows), sum(1 for r in rows if r[4].startswith('caught'))), ""]
+out += ["", "%d runs of seeded changes against checks (a change seeded for C01 is also run against the component check it belongs to), %d caught by the quick tier, %d of them only after strengthening." % (len(rows), sum(1 for r in rows if r[4].startswith('caught')), sum(1 for r in rows if 'MISSED by the first' in r[4])), "",
+        "Notes on the misses and what was strengthened:", "",
+        "* `C13-dedup-record-after-sign` (check-then-record of the signed hash no longer atomic): the driver issued requests sequentially; added racing `sreq2` ops (two goroutines through the real handler, a gate around the server's sign function forces the overlap) and theorem `concurrent_requests_one_signature`.",
+        "* `C09-att-verify-before-local-copy` (published carrier is not the verified object): carrier-with-validator-index and content-altered-after-signing were separate single corruptions; the generator now builds all carrier positions × altered/consistent content systematically.",
+        "* `C12-combine-exact-threshold` (`combine` refuses exactly-threshold share sets): `combine` was only run with all node directories; it is now run on every exactly-threshold subset (n ≤ 5), all, threshold+1 and threshold−1 directories, with model function `combineAccepts` and theorems.",
+        "* `C08-verify-memo-ignores-message` (memo of successful verifications keyed without the message): every substitution built a new signature; the driver now re-verifies the SAME signature bytes against other messages/keys in both orders (`vfy` ops) and `verify_stateless` states the obligation.",
+        "* `C01-*` (single-component slips: sigagg publishing after a failed verification; parsigex forwarding the unfiltered set): not reachable in the one-validator attester cluster simulator; C01's check now also runs the aggregator (C09) and admission (C10) streams and reports their safety monitors under C01.",
+        ""]
 txt = "\n".join(out)
 p = '/verif/DESIGN.md'
 s = open(p).read()
